@@ -4,13 +4,17 @@ package v2
 
 import (
 	"context"
+	"errors"
+	"regexp"
 	"time"
 
 	"github.com/attestantio/go-eth2-client/spec/bellatrix"
 	"github.com/attestantio/go-eth2-client/spec/phase0"
 	"github.com/attestantio/vouch/internal/vnd"
+	"github.com/attestantio/vouch/internal/vstub"
 	"github.com/attestantio/vouch/services/beaconblockproposer"
 	"github.com/shopspring/decimal"
+	e2wtypes "github.com/wealdtech/go-eth2-wallet-types/v2"
 )
 
 // One optional field family at a time is symbolic at every level (top, base
@@ -242,4 +246,81 @@ func VerifC16_ConfigShapes() {
 	cfg.Proposers = []*ProposerConfig{p}
 	_, _ = cfg.ProposerConfig(context.Background(), nil, pubkey, bellatrix.ExecutionAddress{1}, 30000000)
 	vnd.Cover("C16.config.survived")
+}
+
+// ---------------------------------------------------------------------------
+// account proposers
+
+type c10Account struct {
+	vstub.Account
+	w *vstub.Wallet
+}
+
+func (a *c10Account) Wallet() e2wtypes.Wallet { return a.w }
+
+var c10Doc struct {
+	text     string
+	proposer string
+}
+
+// VerifStub_json_Unmarshal stands for encoding/json.Unmarshal on the proposer
+// entry document of VerifC10_V2AccountAnchors (the native replay uses the real
+// decoder on the same text).
+func VerifStub_json_Unmarshal(data []byte, v any) error {
+	if string(data) != c10Doc.text {
+		return errors.New("document outside the catalogue")
+	}
+	d, ok := v.(*proposerConfigJSON)
+	if !ok {
+		return errors.New("target outside the catalogue")
+	}
+	d.Proposer = c10Doc.proposer
+	d.FeeRecipient = "0x0101010101010101010101010101010101010101"
+	return nil
+}
+
+// VerifC10_V2AccountAnchors: an account proposer read from a version 2
+// document applies to an account exactly when the expression, anchored at both
+// ends whatever anchors it was written with, matches the whole "wallet/account"
+// name; the entry decoded from the document is the one applied.
+func VerifC10_V2AccountAnchors() {
+	body := []string{"Wallet 1/Account 1", "Wallet 1/Account .", "Wallet 1/.*", "W.*1"}[vnd.Choose("expression", 4)]
+	written := body
+	switch vnd.Choose("anchors-written", 4) {
+	case 1:
+		written = "^" + body
+	case 2:
+		written = body + "$"
+	case 3:
+		written = "^" + body + "$"
+	}
+	c10Doc.proposer = written
+	c10Doc.text = `{"proposer":"` + written + `","fee_recipient":"0x0101010101010101010101010101010101010101"}`
+	entry := &ProposerConfig{}
+	err := entry.UnmarshalJSON([]byte(c10Doc.text))
+	vnd.Assert(err == nil && entry.Account != nil, "C10.v2.account-entry-decodes")
+	if err != nil || entry.Account == nil {
+		return
+	}
+	vnd.Assert(entry.Account.String() == "^"+body+"$", "C10.v2.account-expression-anchored-at-both-ends")
+
+	names := [][2]string{{"Wallet 1", "Account 1"}, {"Wallet 1", "Account 10"}, {"Cold Wallet 1", "Account 1"}, {"Wallet 1", "Account 2"}, {"Wallet 2", "Account 1"}, {"Wallet 11", "x/Account 1"}}
+	nm := names[vnd.Choose("account-name", len(names))]
+	acc := &c10Account{w: &vstub.Wallet{Nm: nm[0]}}
+	acc.Nm = nm[1]
+	// a later entry that matches everything must not be reached when the first matches
+	decoyFee := bellatrix.ExecutionAddress{0xdd}
+	cfg := &ExecutionConfig{Version: 2, Proposers: []*ProposerConfig{entry, {Account: regexp.MustCompile("^.*$"), FeeRecipient: &decoyFee}}}
+	fallbackFee := bellatrix.ExecutionAddress{0xfa}
+	got, err := cfg.ProposerConfig(context.Background(), acc, phase0.BLSPubKey{7}, fallbackFee, 30000000)
+	vnd.Assert(err == nil && got != nil, "C10.v2.account-lookup-no-error")
+	whole := regexp.MustCompile("^(?:" + body + ")$").MatchString(nm[0] + "/" + nm[1])
+	want := decoyFee
+	if whole {
+		vnd.Cover("C10.v2.account-entry-applies")
+		want = bellatrix.ExecutionAddress{1, 1, 1, 1, 1, 1, 1, 1, 1, 1, 1, 1, 1, 1, 1, 1, 1, 1, 1, 1}
+	} else {
+		vnd.Cover("C10.v2.account-entry-skipped")
+	}
+	vnd.Assert(got.FeeRecipient == want, "C10.v2.first-entry-matching-the-whole-account-name-applies")
 }
